@@ -14,7 +14,10 @@ import time
 
 VERIF = os.path.dirname(os.path.dirname(os.path.dirname(os.path.abspath(__file__))))
 SPEC = os.path.join(VERIF, "spec")
-BUILD = os.path.join(VERIF, "build")
+# BCVERIF_OUT (default: /verif) receives build/, evidence/ and replays/ -- the registered commands never set it; it lets
+# tools/try_seed.sh judge a scratch worktree (BCVERIF_REPO) without touching /repo or the committed evidence
+OUT = os.environ.get("BCVERIF_OUT", VERIF)
+BUILD = os.path.join(OUT, "build")
 REPO = os.environ.get("BCVERIF_REPO", "/repo")
 TLA_JAR = "/opt/veriftools/tla/tla2tools.jar"
 NCPU = os.cpu_count() or 4
@@ -274,7 +277,7 @@ class Check:
         self.t0 = time.time()
         self.dir = os.path.join(BUILD, pid)
         shutil.rmtree(self.dir, ignore_errors=True)
-        shutil.rmtree(os.path.join(VERIF, "replays", pid), ignore_errors=True)
+        shutil.rmtree(os.path.join(OUT, "replays", pid), ignore_errors=True)
         os.makedirs(self.dir, exist_ok=True)
         open(os.path.join(self.dir, "Empty.cfg"), "w").close()
         _stage(self.dir, None)
@@ -457,7 +460,7 @@ class Check:
                     h["count"] += 1
                     return
         nclause = sum(1 for v in self.violations if v[0] == clause)
-        rdir = os.path.join(VERIF, "replays", self.pid)
+        rdir = os.path.join(OUT, "replays", self.pid)
         if nclause < 5 and len(os.listdir(rdir) if os.path.isdir(rdir) else []) < 300:
             os.makedirs(rdir, exist_ok=True)
             safe = re.sub(r"[^A-Za-z0-9_.-]", "_", clause)
@@ -503,6 +506,8 @@ class Check:
         }
         if self.exhaustive is not None:
             cov["exhaustive"] = bool(self.exhaustive)
+        if JOB_FAILURES:
+            cov["driver_jobs_crashed"] = [{"job": f[0], "exception": f[1]} for f in JOB_FAILURES[:10]]
         cov.update(self.extra)
         ev = {
             "property_id": self.pid,
@@ -514,13 +519,16 @@ class Check:
             "wall_s": round(wall, 2),
             "violations": len(self.violations),
         }
-        os.makedirs(os.path.join(VERIF, "evidence"), exist_ok=True)
-        with open(os.path.join(VERIF, "evidence", self.pid + ".json"), "w") as f:
+        os.makedirs(os.path.join(OUT, "evidence"), exist_ok=True)
+        with open(os.path.join(OUT, "evidence", self.pid + ".json"), "w") as f:
             json.dump(ev, f, indent=1, default=str)
         print("%s tier=%s seed=%d: spec states=%d transitions=%d; impl events judged by TLC=%d in %d trace files; "
               "violations=%d known=%d; %.1fs" % (self.pid, self.tier, self.seed, self.states, self.transitions,
                                                   self.events, self.traces, len(self.violations),
                                                   sum(v["count"] for v in self.known_hits.values()), wall))
+        if JOB_FAILURES and not self.violations:
+            raise MachineryError("%d driver job(s) crashed (%s) and nothing else was rejected; last traceback:\n%s" % (
+                len(JOB_FAILURES), ", ".join(sorted({f[1] for f in JOB_FAILURES})), JOB_FAILURES[-1][2]))
         return 1 if self.violations else 0
 
 
@@ -571,12 +579,45 @@ def setup_repo_import():
         pass
 
 
-def pmap(fn, items, procs=NCPU, chunksize=1):
-    """Process-parallel map preserving order (fork; workers import the repo lazily)."""
+JOB_FAILURES = []  # (function name, exception class, last lines of the traceback) of driver jobs that crashed
+
+
+class _Guarded:
+    """picklable wrapper: a job that raises returns a marker instead of killing the whole map"""
+
+    def __init__(self, fn):
+        self.fn = fn
+
+    def __call__(self, x):
+        try:
+            return ("ok", self.fn(x))
+        except Exception as ex:  # noqa: B902
+            import traceback
+
+            return ("crash", type(ex).__name__, traceback.format_exc()[-1500:])
+
+
+def pmap(fn, items, procs=NCPU, chunksize=1, empty=list):
+    """Process-parallel map preserving order (fork; workers import the repo lazily).  A job that crashes contributes
+    `empty()` and is recorded in JOB_FAILURES: the other jobs' events are still judged, and Check.finish turns a run
+    with crashed jobs and no violation into a machinery failure (never into a silent pass)."""
     import multiprocessing as mp
 
+    # the parent must be able to unpickle whatever a worker sends back
+    if REPO not in sys.path:
+        sys.path.append(REPO)
+    g = _Guarded(fn)
     if procs <= 1 or len(items) <= 1:
-        return [fn(x) for x in items]
-    ctx = mp.get_context("fork")
-    with ctx.Pool(min(procs, len(items))) as pool:
-        return pool.map(fn, items, chunksize)
+        raw = [g(x) for x in items]
+    else:
+        ctx = mp.get_context("fork")
+        with ctx.Pool(min(procs, len(items))) as pool:
+            raw = pool.map(g, items, chunksize)
+    out = []
+    for r in raw:
+        if r[0] == "ok":
+            out.append(r[1])
+        else:
+            JOB_FAILURES.append((getattr(fn, "__name__", str(fn)), r[1], r[2]))
+            out.append(empty())
+    return out
